@@ -16,7 +16,7 @@ def drv(focus, n=None, tags="verif"):
     variant = focus + ("-gcopt" if "gc_opt" in tags else "") + ("-pollopt" if "poll_opt" in tags else "")
     return dict(cmd="drv-loop", family="loop", variant=variant,
                 unix_swap=(LOOP_SWAP_OPT if "poll_opt" in tags else LOOP_SWAP), shrink=False,
-                args=args, tags=tags, netns=True, timeout=dict(quick=600, thorough=3000))
+                args=args, tags=tags, netns=True, confirm=True, timeout=dict(quick=600, thorough=3000))
 
 
 # translator run on every check: processIO as a program of Model/LoopPio.v (obligation: = Model.process_io),
@@ -30,7 +30,7 @@ def startfault(n=60, tags="verif"):
     the start sequence (Model/Start.v, family loopstart: outcome, descriptors created per kind, closes, leftovers,
     stray closes); client starts and the stop-race cases are judged by the direct oracles only"""
     return dict(cmd="drv-loop", variant="startfault" + ("-pollopt" if "poll_opt" in tags else ""), family="loopstart",
-                unix_swap=(LOOP_SWAP_OPT if "poll_opt" in tags else LOOP_SWAP), shrink=False, netns=True,
+                unix_swap=(LOOP_SWAP_OPT if "poll_opt" in tags else LOOP_SWAP), shrink=False, netns=True, confirm=True,
                 args=["-focus", "startfault", "-n", str(n)], tags=tags, sites=["^fd-leak$", "^fd-not-owned$", "^engine-start$", "^hang$"],
                 timeout=dict(quick=600, thorough=3000))
 
